@@ -110,7 +110,7 @@ class Cog17(ExactSolver):
             rho0 = (x6 / x7) * x8
             rho0 = pow(rho0, c0)
 
-            density = rho0 * pow(r, c1) * pow(t, c2) * np.ones(shape=r.shape)
+            density = rho0 * pow(r, c1) * pow(t, -c2) * np.ones(shape=r.shape)
             velocity = u0 * (r / t) * np.ones(shape=r.shape)
             temperature = temp0 * pow((r / t), 2) * np.ones(shape=r.shape)
             pressure = bigGamma * density * temperature
